@@ -459,7 +459,8 @@ let cmd_pg (x : sx) : sx =
       let ids = List.filteri (fun i _ -> List.nth pres i) (List.mapi (fun i _ -> n_of_int i) pres) in
       let cs = sx_list (fun cs -> sx_list sx_pgcons cs) css in
       L [A "wf"; bool_sx (wf_check pg_dom a (compute_rank a) ids && arity_ok pg_dom a);
-         A "sound"; bool_sx (lab_ok pg_dom (fun _ -> true) pg_atoms a (compute_lab pg_dom pg_atoms a) cs)]
+         A "sound"; bool_sx (lab_ok pg_dom (fun _ -> true) pg_atoms a (compute_lab pg_dom pg_atoms a) cs);
+         A "complete"; bool_sx (cert_complete pg_entails pg_refutes a cs pres)]
   | _ -> failwith "pg args"
 
 let dispatch (x : sx) : sx =
